@@ -213,6 +213,11 @@ Loop:
 		isEdited := (isLeaving && len(edits) != 0)
 
 		if isLeaving {
+			if sstack == nil {
+				// the root was skipped by its own enter callback: there is no
+				// frame to return to, the traversal is over
+				break Loop
+			}
 			key, path = pop(path)
 
 			node = parent
